@@ -18,10 +18,14 @@ Open Scope N_scope.
    shrinking and extending, sync_all / sync_data / sync_dir / background-sync
    coins anywhere, remove_file, create_dir, remove_dir, metadata, exists,
    read_dir (as sets), fs::read, fs::write, failing renames.
-   Not covered (named in partial_note): create_dir_all, remove_dir_all (checked by
-   correspondence and oracle only); renames that succeed, re-creation of removed
-   paths, handles used after their path was removed: refuted below. *)
-Theorem c10_refines : forall l,
+   Not covered (hence _partial; named in partial_note): create_dir_all,
+   remove_dir_all, and renames of regular files that succeed.  Of the latter the
+   crate gets right those of data-synced files left alone until a directory sync
+   flushes the rename (c10_rename_clean_example; asserted on generated histories by
+   the oracle, which uses the narrow classes RenameFile / RenameCrossDir); the
+   others are refuted below, as are re-creation of removed paths and handles used
+   after their path was removed. *)
+Theorem c10_refines_partial : forall l,
   forallb c10_op l = true -> known_free l = true ->
   Forall2 obs_ok (snd (srun init_sworld l)) (snd (run (init_world 0) l)).
 Proof. exact refines_lemma. Qed.
@@ -89,6 +93,26 @@ Theorem c10_rename_dir_refuted :
   spec_out w_rename_dir 5 = ODir /\ impl_out w_rename_dir 5 = OFile 0.
 Proof. exact rename_dir_refuted_lemma. Qed.
 
+Theorem c10_rename_cross_resurrect_refuted :
+  spec_out w_rename_cross_resurrect 8 = OBool false /\ impl_out w_rename_cross_resurrect 8 = OBool false /\
+  spec_out w_rename_cross_resurrect 10 = OBool false /\ impl_out w_rename_cross_resurrect 10 = OBool true.
+Proof. exact rename_cross_resurrect_refuted_lemma. Qed.
+
+Theorem c10_rename_rmdir_refuted :
+  spec_out w_rename_rmdir 8 = OErr ENOTEMPTY /\ impl_out w_rename_rmdir 8 = OOk.
+Proof. exact rename_rmdir_refuted_lemma. Qed.
+
+Theorem c10_rename_again_refuted :
+  spec_out w_rename_again 10 = OBool true /\ impl_out w_rename_again 10 = OBool false.
+Proof. exact rename_again_refuted_lemma. Qed.
+
+(* A rename outside the narrow classes: the model (= the crate, by correspondence)
+   agrees with the reference on every observation. *)
+Example c10_rename_clean_example :
+  Forall2 obs_ok (snd (srun init_sworld w_rename_clean)) (snd (run (init_world 0) w_rename_clean)) /\
+  impl_out w_rename_clean 14 = OBytes [65; 88].
+Proof. exact rename_clean_example_lemma. Qed.
+
 Theorem c10_stale_handle_refuted :
   in_class KStaleHandle w_stale_handle = true /\
   spec_out w_stale_handle 3 = OOk /\ impl_out w_stale_handle 3 = OErr ENOENT.
@@ -105,7 +129,7 @@ Theorem c10_root_op_refuted :
   spec_out w_root_op 1 = OBool true /\ impl_out w_root_op 1 = OBool false.
 Proof. exact root_op_refuted_lemma. Qed.
 
-Print Assumptions c10_refines.
+Print Assumptions c10_refines_partial.
 Print Assumptions c10_sync_is_invisible.
 Print Assumptions c10_nonvacuous.
 Print Assumptions c10_time_is_invisible.
@@ -114,6 +138,10 @@ Print Assumptions c10_rename_file_refuted.
 Print Assumptions c10_rename_twice_refuted.
 Print Assumptions c10_rename_self_refuted.
 Print Assumptions c10_rename_dir_refuted.
+Print Assumptions c10_rename_cross_resurrect_refuted.
+Print Assumptions c10_rename_rmdir_refuted.
+Print Assumptions c10_rename_again_refuted.
+Print Assumptions c10_rename_clean_example.
 Print Assumptions c10_stale_handle_refuted.
 Print Assumptions c10_recreate_refuted.
 Print Assumptions c10_root_op_refuted.
